@@ -824,8 +824,9 @@ namespace mon
       }
 
       // ---- C11: one (grammar, input) pair in the "ana" configuration. Returns 1 when the reference found a cycle without
-      //      progress and the fuel-limited real run confirmed it, 2 when the reference found one that the real run did not confirm.
-      int run_cycle_case( const grammar& g, const config& cfg, const std::string& input )
+      //      progress and the fuel-limited real run confirmed it, 2 when the reference found one that the real run did not confirm,
+      //      3 when the reference terminates but the real run of a certified grammar exceeds a budget derived from the reference's effort.
+      int run_cycle_case( const grammar& g, const config& cfg, const std::string& input, const bool certified )
       {
          ref::interp I;
          I.n = g.nodes;
@@ -834,7 +835,10 @@ namespace mon
          I.fuel = 200000;
          ref::ctx c0;
          const ref::outcome ro = I.ev( g.top, 0, input.size(), c0 );
-         if( !( I.loop || ro.st == ref::LOOP ) ) return 0;
+         const bool ref_loop = I.loop || ro.st == ref::LOOP;
+         // no cycle in the reference: the real run still has to terminate within a budget that is generous relative to what
+         // the reference needed (only judged for grammars that analyze() certified)
+         if( !ref_loop && !certified ) return 0;
          verif::guarded_buffer gb( input, 0 );
          R = run_state{};
          R.g = &g;
@@ -843,13 +847,14 @@ namespace mon
          R.end = gb.end();
          R.text = std::string_view( input );
          R.eolch = ( cfg.eolpol == 1 || cfg.eolpol == 4 ) ? '\r' : '\n';
-         R.step_limit = 300000;
-         R.depth_limit = 250;
+         R.step_limit = ref_loop ? 300000 : 2000 + I.steps * 60;
+         R.depth_limit = ref_loop ? 250 : 100 + I.maxdepth * 8;
          runreq rq{ gb.begin(), gb.end(), 0 };
          runres rs;
          g.run( rq, rs );
          ++V.evaluations;
          R.viols.clear();   // protocol monitors are not judged on a run that was cut off
+         if( !ref_loop ) return rs.st == 3 ? 3 : 0;
          return rs.st == 3 ? 1 : 2;
       }
 
@@ -1240,14 +1245,16 @@ namespace mon
             input_enum en;
             en.alpha = alpha;
             en.maxlen = pick_len( alpha.size(), V.thorough() ? 1500 : 400 );
-            std::string input, witness, unconfirmed;
-            long loops = 0, notconf = 0, tried = 0;
+            std::string input, witness, unconfirmed, spinning;
+            long loops = 0, notconf = 0, tried = 0, spins = 0;
             while( en.next( input ) ) {
                ++tried;
-               const int r = run_cycle_case( g, cfg, input );
+               const int r = run_cycle_case( g, cfg, input, problems == 0 );
                if( r == 1 ) { if( !loops ) witness = input; ++loops; }
                if( r == 2 ) { if( !notconf ) unconfirmed = input; ++notconf; }
-               if( loops >= 3 ) break;
+               if( r == 3 ) { if( !spins ) spinning = input; ++spins; }
+               if( problems == 0 && r == 0 ) cell( "cyc:certified-grammar-terminated-within-budget" );
+               if( loops >= 3 || spins >= 3 ) break;
             }
             R.g = &g;
             R.cfg = &cfg;
@@ -1255,6 +1262,10 @@ namespace mon
             if( loops && problems == 0 ) {
                viol( "C11", "C11|certified-but-loops|" + std::string( g.cell ).substr( 0, std::string( g.cell ).find( ':' ) ), "analyze() reports 0 problems but on input \"" + verif::show( witness ) + "\" the reference finds a cycle without progress and the real parser exceeds " + std::to_string( R.step_limit ) + " rule invocations / nesting " + std::to_string( R.depth_limit ) );
                flush_viols( witness );
+            }
+            if( spins && problems == 0 ) {
+               viol( "C11", "C11|certified-but-real-run-makes-no-progress|" + std::string( g.cell ).substr( 0, std::string( g.cell ).rfind( ':' ) ), "analyze() reports 0 problems and the reference evaluation of the documented semantics terminates, but on input \"" + verif::show( spinning ) + "\" the real parser exceeds " + std::to_string( R.step_limit ) + " rule invocations / nesting " + std::to_string( R.depth_limit ) + " (a rule that the analysis takes to consume succeeded without consuming?)" );
+               flush_viols( spinning );
             }
             cell( std::string( "cyc:" ) + ( problems == 0 ? "certified" : "flagged" ) + ":" + ( loops ? "loops" : notconf ? "reference-loop-not-confirmed" : "no-loop-found" ) + ":" + var );
             if( loops ) ++V.nontrivial;
